@@ -923,6 +923,26 @@ theorem P_contract (c : Cfg) (a : Ann) (p : Ty) : P c (.contract a p) := by
   subst hc
   exact ⟨.str s, by simp [toPy], by simp [ofPy, hs, Except.map], (fun h => by cases h), fun _ => by simp⟩
 
+theorem P_ticket (c : Cfg) (a : Ann) (t : Ty) (hP : P c t) : P c (.ticket a t) := by
+  intro cmp v hinv hty
+  simp only [HasTy] at hty
+  obtain ⟨tk, x, n, rfl, htk, hx, hn⟩ := hty
+  simp only [inv, Bool.and_eq_true, Bool.not_eq_true'] at hinv
+  obtain ⟨hc, hi⟩ := hinv
+  subst hc
+  obtain ⟨px, h1, h2, _, _⟩ := hP true x hi hx
+  refine ⟨.tuple [.str tk, px, .int n], by simp [toPy, h1]; rfl, ?_, (fun h => by cases h), fun _ => by simp⟩
+  simp [ofPy, htk, h2, hn]
+  rfl
+
+theorem P_lambda (c : Cfg) (hl : Spec.PyConv.CodeLaw c) (a : Ann) (p r : Ty) : P c (.lambda a p r) := by
+  intro cmp v hinv hty
+  simp only [HasTy] at hty
+  obtain ⟨code, rfl, hok⟩ := hty
+  have hc : cmp = false := by cases cmp <;> simp_all [inv]
+  subst hc
+  exact ⟨.str (c.codeText code), by simp [toPy], by simp [ofPy, hl code hok], (fun h => by cases h), fun _ => by simp⟩
+
 theorem P_option (c : Cfg) (a : Ann) (t : Ty) (hP : P c t) : P c (.option a t) := by
   intro cmp v hinv hty
   simp only [inv, Bool.and_eq_true, Bool.not_eq_true'] at hinv
@@ -1263,7 +1283,7 @@ theorem P_or (c : Cfg) (a : Ann) (l r : Ty) (hO : Por c (.or a l r)) : P c (.or 
 
 
 /-- all three statements, for every type, by induction over the type -/
-theorem roundtrip_all (c : Cfg) (hu : c.unitHashable = true) (ht : c.tryUnpack = false) :
+theorem roundtrip_all (c : Cfg) (hu : c.unitHashable = true) (ht : c.tryUnpack = false) (hl : Spec.PyConv.CodeLaw c) :
     ∀ τ : Ty, P c τ ∧ Pflat c τ ∧ Por c τ := by
   intro τ
   induction τ with
@@ -1287,13 +1307,18 @@ theorem roundtrip_all (c : Cfg) (hu : c.unitHashable = true) (ht : c.tryUnpack =
     exact ⟨P_bigMap c a k v ihk.1 ihv.1, fun _ _ h => by simp [leavesInv] at h, fun _ _ h => by simp [orLeavesInv] at h⟩
   | contract a p _ =>
     exact ⟨P_contract c a p, fun _ _ h => by simp [leavesInv] at h, fun _ _ h => by simp [orLeavesInv] at h⟩
+  | ticket a t ih =>
+    exact ⟨P_ticket c a t ih.1, fun _ _ h => by simp [leavesInv] at h, fun _ _ h => by simp [orLeavesInv] at h⟩
+  | lambda a p r _ _ =>
+    exact ⟨P_lambda c hl a p r, fun _ _ h => by simp [leavesInv] at h, fun _ _ h => by simp [orLeavesInv] at h⟩
 
 /-- the keys of the record a named pair converts to are the field names of its layout, in order -/
-theorem pair_record_keys (c : Cfg) (hu : c.unitHashable = true) (ht : c.tryUnpack = false) (a : Ann) (l r : Ty) (v : Val)
+theorem pair_record_keys (c : Cfg) (hu : c.unitHashable = true) (ht : c.tryUnpack = false)
+    (hl : Spec.PyConv.CodeLaw c) (a : Ann) (l r : Ty) (v : Val)
     (hinv : inv c false (.pair a l r) = true) (hty : HasTy c (.pair a l r) v)
     (p2k : List (Path × String)) (hm : (pairLayout (.pair a l r)).pathToKey = some p2k) :
     ∃ fields, toPy c false (.pair a l r) v = .ok (.record fields) ∧ fields.map (·.1) = p2k.map (·.2) := by
-  have hF := (roundtrip_all c hu ht (.pair a l r)).2.1
+  have hF := (roundtrip_all c hu ht hl (.pair a l r)).2.1
   have hinv' := hinv
   have hty' := hty
   obtain ⟨x, y, rfl, hx, hy⟩ := hty
